@@ -17,6 +17,7 @@ From one description this module derives, independently of each other,
 from __future__ import annotations
 
 import itertools
+import zlib
 import re
 
 NONE = "~none"
@@ -147,7 +148,8 @@ def declared(desc):
                 level(n["nodes"], nid(n) + "/")
 
     level(desc, "")
-    return {"nodes": nodes, "deps": deps}
+    ends = sorted(nid for nid, par, n in walk(desc) if n["k"] == "gate" and "END" in n["targets"])
+    return {"nodes": nodes, "deps": deps, "ends": ends}
 
 
 def containers(decl):
@@ -202,7 +204,9 @@ def _pyfunc(name, params, ret="None"):
     return ns[name]
 
 
-def build(desc, name=None):
+def build(desc, name=None, bind=True):
+    """bind: pre-fill (graph.bind) the first free input of about half of the graphs, at every level: a bound input is
+    still an input of the diagram."""
     from hypergraph import END, Graph
     from hypergraph.nodes.function import FunctionNode
     from hypergraph.nodes.gate import IfElseNode, RouteNode
@@ -224,9 +228,14 @@ def build(desc, name=None):
             if d["gk"] == "ifelse":
                 objs.append(IfElseNode(_pyfunc("g_" + d["name"], d["ins"], "True"), when_true=tg[0], when_false=tg[1], name=d["name"], **em))
             else:
+                if zlib.crc32(("|".join(d["targets"]) + d["name"]).encode()) % 2 or (name is None and "END" in d["targets"]):
+                    tg = {t: f"go to {t}" for t in tg}          # the documented dict form: {target: description}
                 objs.append(RouteNode(_pyfunc("g_" + d["name"], d["ins"], "None"), targets=tg, name=d["name"], **em))
         else:
-            gn = build(d["nodes"], name=d["name"]).as_node()
+            gn = build(d["nodes"], name=d["name"], bind=bind).as_node()
+            if d["rin"] or d["rout"]:
+                # history: the wrapper is USED (put in a graph, flattened) before it is renamed
+                Graph([gn]).to_flat_graph()
             if d["rin"]:
                 gn = gn.with_inputs(**d["rin"])
             if d["rout"]:
@@ -242,8 +251,13 @@ def build(desc, name=None):
         for cn in desc:
             for a in cn.get("after", []):
                 edges.append((a, cn["name"]))
-        return Graph(objs, edges=edges, name=name)
-    return Graph(objs, name=name)
+        g = Graph(objs, edges=edges, name=name)
+    else:
+        g = Graph(objs, name=name)
+    free = [p for p in g.inputs.all if p not in g.inputs.bound]
+    if bind and free and zlib.crc32(("|".join(free) + str(name)).encode()) % 2:
+        g = g.bind(**{free[0]: "bound-value"})
+    return g
 
 
 # ---------------------------------------------------------------------------------------------
